@@ -481,6 +481,107 @@ pub mod fr {
                         b.partial_cmp(&c).map(f_ord).unwrap_or("none")
                     ))
                 }
+                // f.routes s e : the decimal float s*10^e built by several routes; every result must have the
+                // same normalised representation, be pairwise == and partial_cmp Equal (also across
+                // rounding modes and precisions) -> `<signif> <exp> routes-agree`
+                "f.routes" => {
+                    use core::str::FromStr;
+                    let sg = p_ibig(arg(args, 0)?)?;
+                    let e = p_isize(arg(args, 1)?)?;
+                    let base = F10::from_parts(sg.clone(), e);
+                    let mut vals: Vec<(usize, F10)> = vec![(0, base.clone())];
+                    for (i, k) in [1u32, 2, 5, 19, 40].iter().enumerate() {
+                        let m = &sg * IBig::from(10u8).pow(*k as usize);
+                        vals.push((1 + i, F10::from_parts(m, e - *k as isize)));
+                    }
+                    vals.push((6, base.clone().with_precision(base.precision() + 10).value()));
+                    vals.push((7, base.clone().with_precision(0).value()));
+                    vals.push((8, &base + F10::ZERO));
+                    vals.push((9, &base * F10::ONE));
+                    vals.push((10, -(-base.clone())));
+                    vals.push((11, (base.clone() << 3isize) >> 3isize));
+                    vals.push((12, (base.clone() >> 7isize) << 7isize));
+                    if let Ok(v) = F10::from_str(&base.to_string()) {
+                        vals.push((13, v));
+                    }
+                    if e >= 0 && e < 60 {
+                        vals.push((14, F10::from(&sg * IBig::from(10u8).pow(e as usize))));
+                    }
+                    {
+                        // with 5 spare digits the sum and the difference are exact
+                        let h = base.clone().with_precision(base.precision() + 5).value();
+                        vals.push((15, (&h + &h) - &h));
+                    }
+                    let zero_mode: FBig<mode::Zero, 10> = base.clone().with_rounding::<mode::Zero>();
+                    let r0 = base.repr();
+                    let head = format!("{} {}", f_ibig(r0.significand()), f_dec(r0.exponent()));
+                    let mut bad: Option<String> = None;
+                    for (r, v) in &vals {
+                        let rp = v.repr();
+                        if rp.significand() != r0.significand() || rp.exponent() != r0.exponent() {
+                            bad = Some(format!("route{}:repr={}e{}", r, f_ibig(rp.significand()), rp.exponent()));
+                            break;
+                        }
+                        if !(v == &zero_mode) || v.partial_cmp(&zero_mode) != Some(Ordering::Equal) {
+                            bad = Some(format!("route{}:cross-mode", r));
+                            break;
+                        }
+                        for (r1, w) in &vals {
+                            if v != w || v.partial_cmp(w) != Some(Ordering::Equal) || v.cmp(w) != Ordering::Equal {
+                                bad = Some(format!("route{}-vs-route{}", r, r1));
+                            }
+                        }
+                    }
+                    Ok(match bad {
+                        None => format!("{} routes-agree", head),
+                        Some(b) => format!("{} BAD {}", head, b),
+                    })
+                }
+                // q.routes n d : the rational n/d built by several routes (non-reduced parts, signed parts,
+                // arithmetic round trips, parsing, Relaxed -> canonicalize); every RBig must be the reduced
+                // fraction, pairwise ==, cmp Equal, same hash feed -> `<num> <den> routes-agree`
+                "q.routes" => {
+                    use core::str::FromStr;
+                    let n = p_ibig(arg(args, 0)?)?;
+                    let d = p_ubig(arg(args, 1)?)?;
+                    let base = RBig::from_parts(n.clone(), d.clone());
+                    let mut vals: Vec<(usize, RBig)> = vec![(0, base.clone())];
+                    for (i, k) in [2u64, 3, 6, 7, 1 << 40, u64::MAX].iter().enumerate() {
+                        vals.push((1 + i, RBig::from_parts(&n * IBig::from(*k), &d * UBig::from(*k))));
+                    }
+                    vals.push((7, RBig::from_parts_signed(-n.clone(), -IBig::from(d.clone()))));
+                    let y = RBig::from_parts(IBig::from(22), UBig::from(7u8));
+                    vals.push((8, (&base + &y) - &y));
+                    vals.push((9, (&base * &y) / &y));
+                    vals.push((10, -(-base.clone())));
+                    vals.push((11, base.clone()));
+                    if let Ok(v) = RBig::from_str(&format!("{}/{}", n, d)) {
+                        vals.push((12, v));
+                    }
+                    vals.push((13, Relaxed::from_parts(&n * IBig::from(15), &d * UBig::from(15u8)).canonicalize()));
+                    vals.push((14, base.clone().relax().canonicalize()));
+                    let head = format!("{} {}", f_ibig(base.numerator()), f_ubig(base.denominator()));
+                    let mut bad: Option<String> = None;
+                    for (r, v) in &vals {
+                        if v.numerator() != base.numerator() || v.denominator() != base.denominator() {
+                            bad = Some(format!("route{}:parts={}/{}", r, f_ibig(v.numerator()), f_ubig(v.denominator())));
+                            break;
+                        }
+                        if canon_i(v.numerator()).is_some() || canon_u(v.denominator()).is_some() {
+                            bad = Some(format!("route{}:noncanonical-part", r));
+                            break;
+                        }
+                        for (r1, w) in &vals {
+                            if v != w || v.cmp(w) != Ordering::Equal || feed(v) != feed(w) {
+                                bad = Some(format!("route{}-vs-route{}", r, r1));
+                            }
+                        }
+                    }
+                    Ok(match bad {
+                        None => format!("{} routes-agree", head),
+                        Some(b) => format!("{} BAD {}", head, b),
+                    })
+                }
                 // q.cmp n1 d1 n2 d2 : Relaxed fractions as given (not reduced) and the reduced RBig
                 "q.cmp" => {
                     let n1 = p_ibig(arg(args, 0)?)?;
